@@ -884,7 +884,16 @@ def rule_ip_views(ctx):
     E.ip_from_same_slice(ctx, ctx.program, "R1", ("huginn_net_tcp", "huginn_net"))
 
 
+def rule_segment_and_framing(ctx):
+    """the TCP segment a signature is computed from is the IP payload (bounded by the IP total length: link-layer padding is not
+    payload), and the frame is interpreted in the documented link-layer order (shared with C20.R2 / C15.R9)"""
+    from . import _endpoints as E
+    E.tcp_from_payload(ctx, ctx.program, "R5", ("huginn_net_tcp",))
+    E.link_layer_order(ctx, ctx.program, "R5", ("huginn_net_tcp",))
+
+
 def run(ctx):
+    rule_segment_and_framing(ctx)
     rule_ip_views(ctx)
     rule_twins(ctx)
     rule_narrowing(ctx)
